@@ -668,6 +668,46 @@ pub fn c01_after(ck: &mut Checker, sim: &mut Sim, session: usize, proto: Proto, 
     if proto != Proto::LightClient {
         return;
     }
+    // (b) announcements: a SendLastState may move the prove state only to the direct child of
+    // the header proven for that peer (or to a header already proven for another peer)
+    if let Ok(m) = packed::LightClientMessageReader::from_compatible_slice(data) {
+        if let packed::LightClientMessageUnionReader::SendLastState(r) = m.to_enum() {
+            let after = Checker::take_snap(sim);
+            let before = &ck.snap;
+            if before.prove_digest.get(&session) != after.prove_digest.get(&session) {
+                let prev = before.prove.get(&session).and_then(|(p, _)| p.clone());
+                let now = after.prove.get(&session).and_then(|(p, _)| p.clone());
+                let announced_parent = r.last_header().header().raw().parent_hash().as_slice().to_vec();
+                let announced_hash = r.last_header().header().to_entity().calc_header_hash().as_slice().to_vec();
+                let copied = now
+                    .as_ref()
+                    .map(|n| {
+                        before
+                            .prove
+                            .iter()
+                            .any(|(s2, (p2, _))| *s2 != session && p2.as_ref() == Some(n))
+                    })
+                    .unwrap_or(false);
+                let child = match (&prev, &now) {
+                    (Some(p), Some(n)) => *n == announced_hash && announced_parent == *p,
+                    _ => false,
+                };
+                sim.stat("probe.c01.prove_state_moved_by_announcement");
+                if !child && !copied {
+                    sim.violate(
+                        "C01",
+                        "announcement_changed_prove_state_without_proof",
+                        format!(
+                            "a SendLastState from s{} ({}) changed its prove state although the announced header is not the child of the proven one and no proof was verified",
+                            session,
+                            if tag.honest { "honest" } else { "deviating" }
+                        ),
+                    );
+                }
+            }
+            return;
+        }
+    }
     let is_proof = packed::LightClientMessageReader::from_compatible_slice(data)
         .ok()
         .map(|m| matches!(m.to_enum(), packed::LightClientMessageUnionReader::SendLastStateProof(_)))
@@ -740,10 +780,194 @@ pub fn c01_after(ck: &mut Checker, sim: &mut Sim, session: usize, proto: Proto, 
     }
 }
 pub fn c02_before(_ck: &mut Checker, _sim: &mut Sim, _s: usize, _p: Proto, _d: &Bytes, _t: &Tag) {}
-pub fn c02_after(_ck: &mut Checker, _sim: &mut Sim, _s: usize, _p: Proto, _d: &Bytes, _t: &Tag) {}
-pub fn c02_scan(_ck: &mut Checker, _sim: &mut Sim, _when: &str) {}
+pub fn c02_after(ck: &mut Checker, sim: &mut Sim, _s: usize, _p: Proto, _d: &Bytes, t: &Tag) {
+    if !ck.flag("byz_blocks") {
+        return;
+    }
+    if matches!(t.kind, Kind::SendBlock | Kind::SendBlocksProof | Kind::SendTransactionsProof | Kind::Injected) {
+        if !t.honest {
+            sim.stat("probe.c02.mutated_delivered");
+            c02_scan(ck, sim, &format!("after {} ({})", t.kind.name(), t.note));
+        }
+    }
+}
+
+/// Everything stored must exist in the ground-truth chain tree: transactions at the recorded
+/// block, headers, and the transactions referenced by cell / history keys.
+pub fn c02_scan(ck: &mut Checker, sim: &mut Sim, when: &str) {
+    if !ck.flag("byz_blocks") {
+        return;
+    }
+    use rocksdb::ops::Iterate;
+    use rocksdb::{Direction, IteratorMode};
+    let c = match sim.client.as_ref() {
+        Some(c) => c,
+        None => return,
+    };
+    let mut findings: Vec<(&str, String)> = Vec::new();
+    let mode = IteratorMode::From(&[0u8][..], Direction::Forward);
+    for (key, value) in c.storage.db.iterator(mode) {
+        match key[0] {
+            0 => {
+                // TxHash -> (number, index, tx)
+                if key.len() != 33 || value.len() < 12 {
+                    continue;
+                }
+                let number = u64::from_be_bytes(value[0..8].try_into().unwrap());
+                let index = u32::from_be_bytes(value[8..12].try_into().unwrap());
+                let h = Byte32::from_slice(&key[1..]).unwrap();
+                let ok = packed::Transaction::from_slice(&value[12..])
+                    .ok()
+                    .map(|tx| tx.calc_tx_hash() == h)
+                    .unwrap_or(false)
+                    && sim
+                        .world
+                        .tx_locs
+                        .get(&h)
+                        .map(|locs| {
+                            locs.iter().any(|(id, i)| {
+                                sim.world.blocks[*id].number() == number && (*i == index || index == u32::MAX)
+                            })
+                        })
+                        .unwrap_or(false);
+                if !ok {
+                    findings.push((
+                        "stored_transaction_not_in_any_real_block",
+                        format!(
+                            "transaction {:#x} stored at block {} index {}; real locations {:?}",
+                            h,
+                            number,
+                            index,
+                            sim.world.tx_locs.get(&h).map(|l| l
+                                .iter()
+                                .map(|(id, i)| (sim.world.blocks[*id].number(), *i))
+                                .collect::<Vec<_>>())
+                        ),
+                    ));
+                }
+            }
+            32 | 64 | 96 | 128 => {
+                if value.len() == 32 {
+                    let h = Byte32::from_slice(&value).unwrap();
+                    if !sim.world.txs.contains_key(&h) {
+                        findings.push((
+                            "index_entry_of_unknown_transaction",
+                            format!("key prefix {} refers to transaction {:#x}", key[0], h),
+                        ));
+                    }
+                }
+            }
+            160 => {
+                if key.len() == 33 {
+                    let h = Byte32::from_slice(&key[1..]).unwrap();
+                    if !sim.world.by_hash.contains_key(&h) {
+                        findings.push(("stored_header_not_a_real_block", format!("header {:#x}", h)));
+                    }
+                }
+            }
+            _ => {}
+        }
+    }
+    findings.dedup_by(|a, b| a.0 == b.0);
+    for (clause, detail) in findings {
+        sim.violate("C02", clause, format!("[{}] {}", when, detail));
+    }
+}
 pub fn c06_before(_ck: &mut Checker, _sim: &mut Sim, _s: usize, _p: Proto, _d: &Bytes, _t: &Tag) {}
-pub fn c06_after(_ck: &mut Checker, _sim: &mut Sim, _s: usize, _p: Proto, _d: &Bytes, _t: &Tag) {}
+
+/// C06 step invariant: the filtered height only moves over authentic filters, and a matched
+/// record names the proven-chain blocks of the heights it covers.
+pub fn c06_after(ck: &mut Checker, sim: &mut Sim, session: usize, _p: Proto, data: &Bytes, t: &Tag) {
+    if t.kind != Kind::BlockFilters {
+        return;
+    }
+    if !t.honest {
+        sim.stat("probe.c06.mutated_filters_delivered");
+    }
+    let c = match sim.client.as_ref() {
+        Some(c) => c,
+        None => return,
+    };
+    let before = ck.snap.min_filtered;
+    let after = c.storage.get_min_filtered_block_number();
+    if after <= before {
+        return;
+    }
+    let msg = match packed::BlockFilterMessageReader::from_slice(data).ok().map(|m| m.to_enum()) {
+        Some(packed::BlockFilterMessageUnionReader::BlockFilters(r)) => r.to_entity(),
+        _ => return,
+    };
+    let (_, tip) = c.storage.get_last_state();
+    let path = match crate::refidx::canonical_path(&sim.world, &tip.calc_header_hash()) {
+        Some(p) => p,
+        None => return,
+    };
+    let start: u64 = msg.start_number().unpack();
+    let mut findings: Vec<(&str, String)> = Vec::new();
+    for n in (before + 1)..=after {
+        let idx = n.checked_sub(start).map(|x| x as usize);
+        let delivered = idx.and_then(|i| msg.filters().get(i));
+        let truth = path.get(n as usize).map(|id| sim.world.blocks[*id].filter.clone());
+        match (delivered, truth) {
+            (Some(d), Some(tr)) => {
+                if d.as_slice() != tr.as_slice() {
+                    findings.push((
+                        "filtered_height_advanced_over_a_tampered_filter",
+                        format!("s{}: height {} -> {}; the filter delivered for block #{} is not the block's filter ({})", session, before, after, n, t.note),
+                    ));
+                    break;
+                }
+            }
+            (None, _) => {
+                findings.push((
+                    "filtered_height_advanced_beyond_the_delivered_filters",
+                    format!("s{}: height {} -> {} but the message (start {}) has no filter for #{} ({})", session, before, after, start, n, t.note),
+                ));
+                break;
+            }
+            _ => {}
+        }
+    }
+    // a record written for this batch
+    if let Some((rs, count, blocks)) = c.storage.get_latest_matched_blocks() {
+        if rs == before + 1 {
+            let mut allowed = std::collections::HashSet::new();
+            for n in rs..rs.saturating_add(count) {
+                if let Some(id) = path.get(n as usize) {
+                    allowed.insert(sim.world.blocks[*id].hash());
+                }
+            }
+            // positions whose delivered block hash is not the proven-chain block of that height
+            let mut substituted = std::collections::HashSet::new();
+            for (i, h) in msg.block_hashes().into_iter().enumerate() {
+                let n = start + i as u64;
+                if n > after {
+                    break;
+                }
+                if let Some(id) = path.get(n as usize) {
+                    if sim.world.blocks[*id].hash() != h {
+                        substituted.insert(h);
+                    }
+                }
+            }
+            for (h, _) in blocks {
+                if !allowed.contains(&h) || substituted.contains(&h) {
+                    findings.push((
+                        "matched_record_names_a_block_outside_the_filtered_range",
+                        format!("s{}: record (start {}, {} blocks) names {:#x}, which is not the proven-chain block of any of these heights ({})", session, rs, count, h, t.note),
+                    ));
+                    break;
+                }
+            }
+        }
+    }
+    for (clause, detail) in findings {
+        sim.violate("C06", clause, detail);
+        if clause == "matched_record_names_a_block_outside_the_filtered_range" {
+            sim.taint = Some(format!("C06/{}", clause));
+        }
+    }
+}
 pub fn c16_after_deliver(_ck: &mut Checker, _sim: &mut Sim, _s: usize, _p: Proto, _d: &Bytes, _t: &Tag) {}
 pub fn c16_at_end(_ck: &mut Checker, _sim: &mut Sim) {}
 pub fn c18_on_client_send(_ck: &mut Checker, _sim: &mut Sim, _s: usize, _p: Proto, _d: &Bytes) {}
